@@ -431,6 +431,188 @@ def valid_case(case):
         return False
 
 
+_PY_DIRS = ('py:if', 'py:for', 'py:strip')
+
+
+def in_hypotheses(case):
+    """does a (well-formed) case keep the hypotheses of the generator (`gen_i18n.Gen`)?  The
+    shrinker only moves inside them: otherwise it wanders from the defect it started with into one
+    of the recorded findings or into undocumented usage (an i18n:choose without branches ...)."""
+    import re
+    cfg = case['cfg']
+    ignore = set(cfg['ignore_tags'])
+    incl = set(cfg['include_attrs'])
+    checks = case.get('checks', ['identity', 'lookups', 'placeholders', 'excluded'])
+    nofrag = case.get('cat', 'id') != 'id' or checks != ['identity']
+    if case.get('api', 'full') != 'full' or case.get('count_probe'):
+        return False
+    if case.get('cat', 'id') not in ('id', 'scramble', 'perm', 'drop', 'permdrop'):
+        return False
+    name_ok = re.compile(r'^\w+$')
+
+    def is_ws(n):
+        return n[0] == 't' and n[1].strip() == ''
+
+    def text_ok(t, letters):
+        if '\\' in t or '%(' in t or re.search(r'\[\d+:', t):
+            return False
+        return letters or not any(ch.isalpha() for ch in t)
+
+    def attrs_ok(n, lang_ok, plain):
+        for name, parts in n[2]:
+            if name == 'xml:lang' and not lang_ok:
+                return False
+            if name in incl:
+                if plain:
+                    return False
+                if all(q[0] == 't' for q in parts):
+                    v = ''.join(q[1] for q in parts)
+                    if v.strip() not in ('', v):            # finding C19-attr-space
+                        return False
+            if plain and any(q[0] == 'x' and '(' in q[1] for q in parts):
+                return False
+        return True
+
+    def excluded(n):
+        return n[1] in ignore or any(name == 'xml:lang' and all(q[0] == 't' for q in parts) for name, parts in n[2])
+
+    def params_ok(params, kids):
+        nx = [0]
+
+        def count(ks):
+            for k in ks:
+                if k[0] == 'x':
+                    nx[0] += 1
+                elif k[0] == 'e':
+                    count(k[4])
+        count(kids)
+        return (all(name_ok.match(q) for q in params) and len(set(params)) == len(params) and nx[0] <= len(params))
+
+    def content_ok(kids, lvl, in_sub, letters, plain):
+        """content of a message / of a choose branch"""
+        prev = None
+        for k in kids:
+            if k[0] == 't':
+                if not text_ok(k[1], letters):
+                    return False
+            elif k[0] == 'x':
+                if (in_sub or plain) and '(' in k[1]:
+                    return False
+            elif k[0] == 'e':
+                if lvl > 0 and prev == 'e':
+                    return False                            # finding C19-adjacent
+                dirs = [d[0] for d in k[3]]
+                if any(d not in _PY_DIRS for d in dirs) or len(dirs) > 1:
+                    return False
+                if dirs and in_sub:
+                    return False                            # finding C19-nested-directives
+                if k[1] in ignore:
+                    return False
+                sub = in_sub or bool(dirs)
+                sub_plain = plain or (bool(dirs) and nofrag)
+                if not attrs_ok(k, False, sub_plain):
+                    return False
+                if not content_ok(k[4], lvl + 1, sub, letters and not (bool(dirs) and nofrag), sub_plain):
+                    return False
+            else:
+                return False                                # comments, PIs, directive elements
+            prev = k[0]
+        return True
+
+    def ends_ok(kids):
+        return bool(kids) and kids[0][0] in ('t', 'x') and kids[-1][0] in ('t', 'x')
+
+    def branch_kind(n):
+        return G.Ref.branch(n)
+
+    def choose_ok(kids, numeral, params):
+        if numeral not in G.NUM_VARS:
+            return False
+        inner = [k for k in kids if not is_ws(k)]
+        if [branch_kind(k) for k in inner] != ['singular', 'plural']:
+            return False
+        for b in inner:
+            if b[0] == 'e':
+                dirs = [d[0] for d in b[3]]
+                if dirs not in (['i18n:singular'], ['i18n:plural'], ['i18n:singular', 'py:strip'], ['i18n:plural', 'py:strip']):
+                    return False
+                if any(d[1] != '' for d in b[3]):
+                    return False
+                if b[1] in ignore or not attrs_ok(b, False, False):
+                    return False
+                content = b[4]
+                if 'py:strip' in dirs and not ends_ok(content):
+                    return False
+            else:
+                if b[2]:
+                    return False
+                content = b[3]
+                if not ends_ok(content):
+                    return False
+            if not params_ok(params, content) or not content_ok(content, 0, False, not nofrag, False):
+                return False
+            if any(k[0] == 'e' and k[3] for k in content):
+                return False                                # branches are generated without directives inside
+        return True
+
+    def node_ok(n, excl):
+        k = n[0]
+        if k == 't':
+            return True
+        if k == 'c':
+            return '--' not in n[1] and not n[1].endswith('-')
+        if k in ('x', 'pi'):
+            return True
+        if k == 'e':
+            dirs = [d[0] for d in n[3]]
+            msg = G.dir_of(n, 'i18n:msg')
+            cho = G.dir_of(n, 'i18n:choose')
+            if G.dir_of(n, 'i18n:singular') is not None or G.dir_of(n, 'i18n:plural') is not None:
+                return False
+            if len(set(dirs)) != len(dirs):
+                return False
+            if msg is not None:
+                if excl or n[1] in ignore or cho is not None or not attrs_ok(n, False, False):
+                    return False
+                if any(d not in ('i18n:msg', 'i18n:comment') + _PY_DIRS for d in dirs):
+                    return False
+                ps = G.split_params(msg)
+                return params_ok(ps, n[4]) and content_ok(n[4], 0, False, True, False)
+            if cho is not None:
+                if excl or n[1] in ignore or dirs != ['i18n:choose'] or not attrs_ok(n, False, False):
+                    return False
+                numeral, ps = G.choose_parts(cho)
+                return choose_ok(n[4], numeral, ps)
+            if not attrs_ok(n, True, False):
+                return False
+            if G.dir_of(n, 'i18n:ctxt') == '':
+                return False
+            ex = excl or excluded(n)
+            return all(node_ok(c, ex) for c in n[4])
+        if k == 'd':
+            attrs = dict((a[0], a[1]) for a in n[2])
+            if n[1] == 'i18n:msg':
+                if excl or set(attrs) != set(['params']):
+                    return False
+                ps = G.split_params(attrs['params'])
+                return ends_ok(n[3]) and params_ok(ps, n[3]) and content_ok(n[3], 0, False, True, False)
+            if n[1] == 'i18n:choose':
+                if excl or set(attrs) != set(['numeral', 'params']):
+                    return False
+                ps = [q.strip() for q in attrs['params'].split(',') if q.strip()]
+                return choose_ok(n[3], attrs['numeral'], ps)
+            if n[1] in ('i18n:domain', 'i18n:ctxt'):
+                if set(attrs) != set(['name']) or (n[1] == 'i18n:ctxt' and not attrs['name']):
+                    return False
+                return all(node_ok(c, excl) for c in n[3])
+            return False                                    # branches outside a choose, py:if elements
+        return False
+    try:
+        return all(node_ok(n, False) for n in case['tmpl'])
+    except Exception:  # noqa
+        return False
+
+
 def oracle_case(case):
     if not valid_case(case):
         return None
@@ -978,6 +1160,11 @@ def shard(arg):
         f = oracle_case(c)
         if f:
             res.failures.append(f)
+        elif not in_hypotheses(c):
+            # harness self-check: the hypothesis checker the shrinker uses must accept what the
+            # generator produces
+            res.failures.append({'case': c, 'what': 'harness self-check: a generated case lies inside the stated hypotheses '
+                                                    '(in_hypotheses disagrees with gen_i18n.Gen)', 'expected': True, 'observed': False})
         try:
             triples.extend(t + (c,) for t in corr_lines(c, rng))
         except Exception as e:  # noqa
@@ -1038,7 +1225,25 @@ def replay(ctx, case):
     """the oracle on one case; a case whose reference template does not render is not an input
     of the property (the shrinker produces such cases) - only the generation loop reports
     that as a harness self-check failure"""
+    if not _recorded_input(case) and not (valid_case(case) and in_hypotheses(case)):
+        return None
     f = oracle_case(case)
     if f and f.get('what', '').startswith('the reference template renders'):
         return None
     return f
+
+
+_RECORDED = []
+
+
+def _recorded_input(case):
+    """the inputs of findings/C19.json are replayed as they are (they lie outside the hypotheses)"""
+    import os
+    if not _RECORDED:
+        path = os.path.join(os.path.dirname(os.path.dirname(os.path.dirname(os.path.abspath(__file__)))), 'findings', 'C19.json')
+        try:
+            with open(path) as fh:
+                _RECORDED.append(set(json.dumps(e.get('input'), sort_keys=True) for e in json.load(fh)))
+        except Exception:  # noqa
+            _RECORDED.append(set())
+    return json.dumps(case, sort_keys=True) in _RECORDED[0]
